@@ -49,6 +49,122 @@ theorem afterSets_getD (doc : List Item) (ops : List SetOp) (s k : Bytes) :
     rw [ih]
     by_cases h : o.sec = s ∧ o.key = k <;> simp [h]
 
+/-! ## the written file is again a document of the grammar -/
+
+theorem wfLine_kvLine (indent : Bytes) (kv : Bytes × Bytes) (hI : Blank indent) (hk : KeyOK kv.1) (hv : ValOK kv.2) :
+    WFLine (kvLine indent kv) :=
+  ⟨.kv indent kv.1 [] [] kv.2 [], ⟨hI, hk, blank_nil, blank_nil, hv, blank_nil⟩, by simp [Item.render, kvLine]⟩
+
+theorem wfLine_header (title : Bytes) (h : NameOK title) : WFLine (headerLine title) :=
+  ⟨.header title, h, rfl⟩
+
+theorem placeSection_wfLines (indent : Bytes) (lines : List Bytes) (title : Bytes) (sect : Section) (out : List Bytes)
+    (hI : Blank indent) (ht : NameOK title) (hs : ∀ kv ∈ sect, KeyOK kv.1 ∧ ValOK kv.2)
+    (hl : ∀ l ∈ lines, WFLine l) (hp : placeSection indent lines title sect = some out) : ∀ l ∈ out, WFLine l := by
+  unfold placeSection at hp
+  have hkvs : ∀ l ∈ sect.map (kvLine indent), WFLine l := by
+    intro l hl'
+    obtain ⟨kv, hkv, rfl⟩ := List.mem_map.mp hl'
+    exact wfLine_kvLine indent kv hI (hs kv hkv).1 (hs kv hkv).2
+  have htake : ∀ j, ∀ l ∈ lines.take j, WFLine l := fun j l h => hl l (List.mem_of_mem_take h)
+  have hdrop : ∀ j, ∀ l ∈ lines.drop j, WFLine l := fun j l h => hl l (List.mem_of_mem_drop h)
+  split at hp
+  · simp at hp; subst hp; exact hl
+  · split at hp
+    · simp only [Option.some.injEq] at hp; subst hp
+      intro l hmem
+      simp only [List.mem_append] at hmem
+      rcases hmem with (h | h) | h
+      · exact htake _ l h
+      · exact hkvs l h
+      · exact hdrop _ l h
+    · split at hp
+      · simp at hp
+      · simp only [Option.some.injEq] at hp; subst hp
+        intro l hmem
+        simp only [List.mem_append, List.mem_singleton] at hmem
+        rcases hmem with (((h | h) | h) | h) | h
+        · exact htake _ l h
+        · split at h
+          · simp at h; subst h; exact wfLine_nil
+          · simp at h
+        · subst h; exact wfLine_header title ht
+        · exact hkvs l h
+        · exact hdrop _ l h
+
+theorem pass2_wfLines (indent : Bytes) (hI : Blank indent) (secs : Dic Section) (lines out : List Bytes)
+    (hok : SecsOK secs) (hl : ∀ l ∈ lines, WFLine l) (hp : pass2 indent lines secs = some out) :
+    ∀ l ∈ out, WFLine l := by
+  induction secs generalizing lines with
+  | nil => simp only [pass2, Option.some.injEq] at hp; subst hp; exact hl
+  | cons ts t ih =>
+    obtain ⟨title, sect⟩ := ts
+    obtain ⟨hnd, hall⟩ := hok
+    obtain ⟨hname, hsn, hskv⟩ := hall (title, sect) (by simp)
+    simp only [pass2] at hp
+    cases hps : placeSection indent lines title sect with
+    | none => simp [hps] at hp
+    | some lines' =>
+      simp only [hps] at hp
+      exact ih lines' ⟨(List.nodup_cons.mp hnd).2, fun ts hts => hall ts (by simp [hts])⟩
+        (placeSection_wfLines indent lines title sect lines' hI hname hskv hl hps) hp
+
+theorem joinLines_render (doc : List Item) :
+    joinLines (doc.map Item.render) = renderDoc doc [10] (!doc.isEmpty) := by
+  unfold joinLines renderDoc
+  induction doc with
+  | nil => rfl
+  | cons it t ih =>
+    cases t with
+    | nil => simp [joinWith]
+    | cons it2 t2 =>
+      simp only [List.map_cons, List.flatMap_cons, List.isEmpty_cons, Bool.not_false, if_true] at ih ⊢
+      rw [ih]
+      simp [joinWith, List.append_assoc]
+
+/-- the text `write` produces is the text of a well-formed document (LF line ends) -/
+theorem write_is_document (ini : Ini) (h : WFIni ini) (r : WriteResult) (hw : write ini = some r)
+    (t : Bytes) (ht : r.text = some t) :
+    ∃ doc : List Item, (∀ it ∈ doc, it.WF) ∧ t = renderDoc doc [10] (!doc.isEmpty) := by
+  obtain ⟨doc, hlines, hd⟩ := doc_of_wfLines ini.lines h.1
+  unfold write at hw
+  simp only at hw
+  let w0 : W1 := ⟨touch ini.sections nosection, ini.sections, nosection, ini.modified⟩
+  have hw0 : ∀ s k, lookupD w0.sections s k = lookupD ini.sections s k := fun s k => lookupD_touch _ _ s k
+  obtain ⟨hout1, _, _⟩ := pass1_doc ini.indent ini.sections doc hd w0 hw0
+  obtain ⟨_, hnewOK⟩ := pass1_secsOK ini.indent doc hd w0 (secsOK_touch _ _ h.2.2 nameOK_nosection) h.2.2 nameOK_nosection
+  rw [hlines] at hw
+  change (match pass2 ini.indent (pass1 ini.indent w0 (doc.map Item.render)).2
+      (pruneEmpty (pass1 ini.indent w0 (doc.map Item.render)).1.newsecs) with
+    | none => none
+    | some out => some _) = some r at hw
+  cases hp2 : pass2 ini.indent (pass1 ini.indent w0 (doc.map Item.render)).2
+      (pruneEmpty (pass1 ini.indent w0 (doc.map Item.render)).1.newsecs) with
+  | none => rw [hp2] at hw; simp at hw
+  | some out =>
+    rw [hp2] at hw
+    simp only [Option.some.injEq] at hw
+    subst hw
+    simp only at ht
+    split at ht
+    · simp only [Option.some.injEq] at ht
+      subst ht
+      have hdoc1 := rewriteDoc_wf ini.indent ini.sections h.2.1 h.2.2 doc hd nosection
+      have hl1 : ∀ l ∈ (pass1 ini.indent w0 (doc.map Item.render)).2, WFLine l := by
+        intro l hl
+        rw [hout1] at hl
+        obtain ⟨it, hit, rfl⟩ := List.mem_map.mp hl
+        exact ⟨it, hdoc1 it hit, rfl⟩
+      have hout := pass2_wfLines ini.indent h.2.1 _ _ out (secsOK_prune _ hnewOK) hl1 hp2
+      obtain ⟨doc', hdl, hd'⟩ := doc_of_wfLines out hout
+      exact ⟨doc', hd', by rw [hdl, joinLines_render]⟩
+    · simp at ht
+
+
+/-- the file holds the text of a well-formed document -/
+def IsDoc (f : Bytes) : Prop :=
+  ∃ (doc : List Item) (eol : Bytes) (fnl : Bool), (∀ it ∈ doc, it.WF) ∧ LineEnd eol ∧ f = renderDoc doc eol fnl
+
 /-- the file agrees with the object -/
 def Agree (st : Ini × Bytes) : Prop :=
   ∀ sw s k, lookupD (Ini.read st.2 sw).sections s k = lookupD st.1.sections s k
@@ -60,11 +176,11 @@ theorem lookupD_secSet (secs : Dic Section) (c key v s k : Bytes) :
   by_cases h : s = c ∧ k = key <;> simp [h]
 
 theorem run_inv (ops : List Op) (st : Ini × Bytes) (hwf : WFIni st.1) (hne : HasNE st.1.lines)
-    (hops : ∀ o ∈ setsOf ops, o.WF) (hJ : st.1.modified = false → Agree st) :
+    (hops : ∀ o ∈ setsOf ops, o.WF) (hJ : st.1.modified = false → Agree st) (hdoc : IsDoc st.2) :
     ∃ st', run st ops = some st' ∧ WFIni st'.1 ∧ HasNE st'.1.lines ∧ (st'.1.modified = false → Agree st') ∧
-      ∀ s k, lookupD st'.1.sections s k = foldD s k (setsOf ops) (lookupD st.1.sections s k) := by
+      (∀ s k, lookupD st'.1.sections s k = foldD s k (setsOf ops) (lookupD st.1.sections s k)) ∧ IsDoc st'.2 := by
   induction ops generalizing st with
-  | nil => exact ⟨st, rfl, hwf, hne, hJ, fun s k => rfl⟩
+  | nil => exact ⟨st, rfl, hwf, hne, hJ, fun s k => rfl, hdoc⟩
   | cons o t ih =>
     cases o with
     | set o =>
@@ -73,12 +189,12 @@ theorem run_inv (ops : List Op) (st : Ini × Bytes) (hwf : WFIni st.1) (hne : Ha
       have hwf' : WFIni (Ini.set st.1 (path o.sec o.key) o.val) := set_wf st.1 o.sec o.key o.val hwf h1 h2 h3 h4
       have hne' : HasNE (Ini.set st.1 (path o.sec o.key) o.val).lines := by
         rw [path, set_slash st.1 o.sec o.key o.val h2]; exact hne
-      obtain ⟨st', hr, hw', hn', hJ', hl⟩ := ih (Ini.set st.1 (path o.sec o.key) o.val, st.2) hwf' hne'
+      obtain ⟨st', hr, hw', hn', hJ', hl, hd'⟩ := ih (Ini.set st.1 (path o.sec o.key) o.val, st.2) hwf' hne'
         (fun x hx => hops x (by simp [setsOf, hx])) (by
           intro hm
           rw [path, set_slash st.1 o.sec o.key o.val h2] at hm
-          simp at hm)
-      refine ⟨st', by simp [run, step, hr], hw', hn', hJ', ?_⟩
+          simp at hm) hdoc
+      refine ⟨st', by simp [run, step, hr], hw', hn', hJ', ?_, hd'⟩
       intro s k
       rw [hl s k]
       simp only [setsOf, foldD, List.foldl_cons]
@@ -101,9 +217,15 @@ theorem run_inv (ops : List Op) (st : Ini × Bytes) (hwf : WFIni st.1) (hne : Ha
           obtain ⟨doc, hdl, hd⟩ := doc_of_wfLines st.1.lines hwf.1
           exact write_lookup st.1 doc hdl hd hwf.2.1 hwf.2.2 r hw t ht sw s k
         | none => exact hJ (hnone ht) sw s k
-      obtain ⟨st', hr, hw', hn', hJ', hl⟩ := ih (r.ini, r.text.getD st.2) hwf' (by rw [hlines]; exact hne)
-        (fun x hx => hops x (by simpa [setsOf] using hx)) (fun _ => hagree)
-      refine ⟨st', by simp [run, step, hw, hr], hw', hn', hJ', ?_⟩
+      have hdoc' : IsDoc (r.text.getD st.2) := by
+        cases ht : r.text with
+        | none => exact hdoc
+        | some t =>
+          obtain ⟨doc', hd', he'⟩ := write_is_document st.1 hwf r hw t ht
+          exact ⟨doc', [10], !doc'.isEmpty, hd', Or.inl rfl, he'⟩
+      obtain ⟨st', hr, hw', hn', hJ', hl, hd'⟩ := ih (r.ini, r.text.getD st.2) hwf' (by rw [hlines]; exact hne)
+        (fun x hx => hops x (by simpa [setsOf] using hx)) (fun _ => hagree) hdoc'
+      refine ⟨st', by simp [run, step, hw, hr], hw', hn', hJ', ?_, hd'⟩
       intro s k
       rw [hl s k]
       simp only [setsOf]
@@ -121,11 +243,18 @@ theorem run_append (a b : List Op) (st : Ini × Bytes) :
 
 /-- a session ending with a `write` leaves a file that agrees with the object -/
 theorem run_final_write (st1 : Ini × Bytes) (hw1 : WFIni st1.1) (hn1 : HasNE st1.1.lines)
-    (hJ1 : st1.1.modified = false → Agree st1) :
-    ∃ st2, run st1 [Op.write] = some st2 ∧ Agree st2 ∧ ∀ s k, lookupD st2.1.sections s k = lookupD st1.1.sections s k := by
+    (hJ1 : st1.1.modified = false → Agree st1) (hdoc : IsDoc st1.2) :
+    ∃ st2, run st1 [Op.write] = some st2 ∧ Agree st2 ∧ (∀ s k, lookupD st2.1.sections s k = lookupD st1.1.sections s k) ∧
+      IsDoc st2.2 := by
   obtain ⟨r, hw, _⟩ := write_isSome st1.1 hn1
   obtain ⟨_, _, hsame, _, hnone⟩ := write_wf st1.1 hw1 r hw
-  refine ⟨(r.ini, r.text.getD st1.2), by simp [run, step, hw], ?_, hsame⟩
+  have hdoc' : IsDoc (r.text.getD st1.2) := by
+    cases ht : r.text with
+    | none => exact hdoc
+    | some t =>
+      obtain ⟨doc', hd', he'⟩ := write_is_document st1.1 hw1 r hw t ht
+      exact ⟨doc', [10], !doc'.isEmpty, hd', Or.inl rfl, he'⟩
+  refine ⟨(r.ini, r.text.getD st1.2), by simp [run, step, hw], ?_, hsame, hdoc'⟩
   intro sw s k
   rw [hsame]
   cases ht : r.text with
